@@ -47,8 +47,22 @@ def script_from_trace(trace):
                 last[3].append('kill')
             elif final in ('err', 'panic') and not any(s[1] in ('err', 'panic') for s in loop_items):
                 return None, 'exit by undecodable message cannot be scripted natively'
+    meta = {'exits': exits, 'started': started}
+    if any(e[0] == 'TASK_ABORTED' for e in trace):
+        # abort while the last started callback is still pending (it yields for long), or while idle after the last callback
+        ab = next(i for i, e in enumerate(trace) if e[0] == 'TASK_ABORTED')
+        before = [e for e in trace[:ab] if e[0] == 'CB' and e[1] in ('start', 'end')]
+        pending = [e for e in trace[:ab + 1] if e[0] == 'CB' and e[1] == 'cancelled']
+        n_entries = len(before)
+        if pending:
+            # the cancelled callback: make it hang instead of being killed
+            for s in order:
+                if s[0] == pending[-1][2] and 'kill' in s[3]:
+                    s[3].remove('kill')
+                    s[2] = 400
+        meta['abort_after_entries'] = n_entries
     script = ';'.join('%s/%s/%d/%s' % (s[0], s[1], s[2], '+'.join(s[3])) for s in order)
-    return script, {'exits': exits, 'started': started}
+    return script, meta
 
 
 def trace_from_log(log, meta):
@@ -81,16 +95,18 @@ def trace_from_log(log, meta):
             tr.append(('START_OK',))
         elif p[0] == 'start_err':
             tr.append(('START_ERR', p[1]))
+        elif p[0] == 'task_aborted':
+            tr.append(('TASK_ABORTED',))
         elif p[0] == 'taskend':
-            tr.append(('TASKEND', 'ready' if p[1] == 'ok' else p[1]))
+            tr.append(('TASKEND', 'ready' if p[1] in ('ok', 'cancelled') else p[1]))
     # supervision events are logged by the supervisor task, which may run later than the child's callbacks: order among SUPEVT is preserved
     for x in meta.get('exits', []):
         tr.append(('LOOPEXIT', x))
     return tr
 
 
-def run_native(script, sup=True, sup_dead=False, named=False):
-    out, lines, rc, err = native.run('life', script=script, sup=1 if sup else 0, sup_dead=1 if sup_dead else 0, named=1 if named else 0, timeout=30)
+def run_native(script, sup=True, sup_dead=False, named=False, abort_after=None):
+    out, lines, rc, err = native.run('life', script=script, sup=1 if sup else 0, sup_dead=1 if sup_dead else 0, named=1 if named else 0, abort_after_entries=abort_after, timeout=30)
     if rc != 0:
         raise RuntimeError('native life replay failed: ' + err[-300:])
     return [x for x in out.get('log', '').split(',') if x]
@@ -124,9 +140,9 @@ def replay_trace(tag, trace, prop, sup=True, sup_dead=False, named=False):
     script, meta = script_from_trace(trace)
     if script is None:
         return {'replayed': False, 'detail': 'no native script for this path: %s' % meta}
-    log = run_native(script, sup, sup_dead, named)
+    log = run_native(script, sup, sup_dead, named, meta.get('abort_after_entries'))
     bad, tr = evaluate(prop, log, meta, sup)
-    return {'replayed': bool(bad), 'detail': 'native scripted actor [%s] -> log %s ; violated %s' % (script, log, bad),
+    return {'replayed': bool(bad), 'detail': 'native scripted actor [%s]%s -> log %s ; violated %s' % (script, ' aborted after %s entries' % meta['abort_after_entries'] if 'abort_after_entries' in meta else '', log, bad),
             'replay': {'scenario': 'life', 'prop': prop, 'script': script, 'meta': meta, 'sup': sup, 'sup_dead': sup_dead, 'named': named, 'violated': bad}}
 
 
@@ -139,7 +155,7 @@ def replay_guard(mode, armed, noc):
 
 def replay_from_json(d):
     rp = d['replay']
-    log = run_native(rp['script'], rp.get('sup', True), rp.get('sup_dead', False), rp.get('named', False))
+    log = run_native(rp['script'], rp.get('sup', True), rp.get('sup_dead', False), rp.get('named', False), rp['meta'].get('abort_after_entries'))
     bad, tr = evaluate(rp['prop'], log, rp['meta'], rp.get('sup', True))
     print('native log:', log)
     print('violated:', bad)
